@@ -617,6 +617,8 @@ pub fn generate(seed: u64, tier: &str, sink: &mut Sink) {
     scen.push((Some(300), vec![(60, 'S', 5), (130, 'C', 0), (200, 'R', 64), (250, 'R', 64), (420, 'R', 64), (500, 'R', 64)])); // … also after the deadline has passed
     scen.push((Some(300), vec![(60, 'S', 5), (130, 'R', 64), (420, 'R', 64), (500, 'R', 64)])); // body cut by the deadline
     scen.push((None, vec![(60, 'S', 5), (130, 'C', 0), (200, 'R', 64), (270, 'R', 64), (340, 'R', 64)]));
+    // (each of the named scenarios twice: scenarios with an odd index read through `read_vectored`)
+    scen = scen.into_iter().flat_map(|s| [s.clone(), s]).collect();
     for _ in 0..n {
         let deadline = *rng.pick(&[None, Some(320u64), Some(700)]);
         let mut tcur = 60u64;
@@ -705,7 +707,19 @@ pub fn generate(seed: u64, tier: &str, sink: &mut Sink) {
                             std::thread::sleep(target - now);
                         }
                         let mut buf = vec![0u8; *n];
-                        results.push(match resp.read(&mut buf) {
+                        // every other scenario reads through `read_vectored`, with room for more than the library's
+                        // own buffer behind the `n` bytes (a scatter read that large goes past that buffer to the
+                        // connection): the same outcomes, reported the same way (seed C13-seed13: the vectored read
+                        // of the plain stream skips the check that tells the peer's close from the deadline's)
+                        let mut big = vec![0u8; 16384];
+                        let r = if i % 2 == 1 {
+                            let mut e0: [u8; 0] = [];
+                            let mut slices = [std::io::IoSliceMut::new(&mut e0), std::io::IoSliceMut::new(&mut buf), std::io::IoSliceMut::new(&mut big)];
+                            resp.read_vectored(&mut slices)
+                        } else {
+                            resp.read(&mut buf)
+                        };
+                        results.push(match r {
                             Ok(0) => "z".to_string(),
                             Ok(k) => format!("d{}", k),
                             Err(e) if e.kind() == std::io::ErrorKind::TimedOut && e.get_ref().is_none() => "T".to_string(),
